@@ -19,7 +19,7 @@ KEYS = ['a', 'a/b', 'ab', 'b']
 CRIT = ['', 'x', 'x y', '=', 'a=b', 'b=1', 'k=v w', '"', '"x"', '"x y"', "'q'", '250 OK', '250', 'OK', '.', '..', '650 a',
         ' x', 'x ', '5']
 CRIT_SMALL = ['', 'x y', 'b=1', '"x"', 'OK', '250 OK', '.', 'a=b']
-ML_LINES = ['x', '.', '..', '.x', '...', '.a..b', 'k=v', 'a=v', '250 OK', 'OK', '', 'x y']
+ML_LINES = ['x', '.', '..', '.x', '...', '.a..b', ' .', 'k=v', 'a=v', '250 OK', 'OK', '', 'x y']
 CONF_VALUES = ['', 'x', 'a b', 'k=v', '"q"', 'OK', '250 OK', 'Opt=1', '0']
 
 
